@@ -10,7 +10,7 @@ S="$WT/SEEDED/$N"
 cd "$WT" || exit 2
 [ -f "$S/patch.diff" ] || { echo "no $S/patch.diff"; exit 2; }
 DEMO_DST=$(head -1 "$S/where.txt" | tr -d ' \r\n')
-git checkout -q -- . ; rm -f "$DEMO_DST"
+git checkout -q -- . ; git clean -fdq -e SEEDED -e TASK.md; rm -f "$DEMO_DST"
 git apply --check "$S/patch.diff" || { echo "PATCH DOES NOT APPLY"; exit 1; }
 if git apply --numstat "$S/patch.diff" | awk '{print $3}' | grep -q '_test.go$'; then echo "PATCH TOUCHES TEST FILES"; exit 1; fi
 git apply "$S/patch.diff"
@@ -47,4 +47,4 @@ for P in $PROP $MORE; do
   echo "exit=$?"
   grep -E "^(HELD|VIOLATED|INCONCLUSIVE|BUILD|VIOLATION)|unlisted-signature" /tmp/seeded_eval.$ID.$P.log | cut -c1-300 | head -8
 done
-(cd "$WT" && git checkout -q -- .)
+(cd "$WT" && git checkout -q -- . && git clean -fdq -e SEEDED -e TASK.md)
